@@ -7,3 +7,12 @@ Inductive sbom_format := CycloneDxJson | SpdxJson | SyftJson.      (* libcnb_dat
 (* util::remove_dir_recursively as called from Rust: the recursion needs no fuel argument there; the
    model's fuel is computed from the file system at the call (rdr_fuel suffices: c11_fuel_enough) *)
 Definition rdr (dir : path) : M unit := fun s => remove_dir_recursively true (rdr_fuel s) dir s.
+
+(* ---- std calls in the regenerated shared::read_layer ---- *)
+(* Result::is_err *)
+Definition res_is_err {E A} (r : result E A) : bool := match r with Err _ => true | Ok _ => false end.
+(* fs::read_to_string(p)?: the contents (whether they are UTF-8 is not modelled) *)
+Definition read_string (p : path) : M bytes := mc <- read_file p ;; ret (content_bytes (snd mc)).
+(* toml::from_str(..).map_err(..)?: parsing is pure; a parse error is reported as EINVAL *)
+Definition lift_parse {A} (parse : bytes -> option A) (c : bytes) : M A :=
+  fun s => (s, match parse c with Some a => Ok a | None => Err EINVAL end).
